@@ -4,6 +4,7 @@ import (
 	"fmt"
 	"go/types"
 	"math"
+	"os"
 	"sort"
 	"strconv"
 	"strings"
@@ -426,6 +427,21 @@ func panicSignature(msg string, stack []string) string {
 	return kind + "@" + topLibFrame(stack)
 }
 
+// memoryHigh: the process uses more than 24 GiB (resident): exploration of the current
+// harness stops (truncated) instead of taking the machine down.
+func memoryHigh() bool {
+	b, err := os.ReadFile("/proc/self/statm")
+	if err != nil {
+		return false
+	}
+	f := strings.Fields(string(b))
+	if len(f) < 2 {
+		return false
+	}
+	pages, _ := strconv.ParseInt(f[1], 10, 64)
+	return pages*int64(os.Getpagesize()) > 24<<30
+}
+
 // explore runs the harness over all paths with nWorkers engines.
 func explore(pg *Program, run *HarnessRun, engines []*Engine, seed int64, deadline time.Time) {
 	t0 := time.Now()
@@ -451,6 +467,7 @@ func explore(pg *Program, run *HarnessRun, engines []*Engine, seed int64, deadli
 	var wg sync.WaitGroup
 	for _, e := range engines {
 		wg.Add(1)
+		e.deadline = deadline
 		go func(e *Engine) {
 			defer wg.Done()
 			for {
@@ -475,7 +492,10 @@ func explore(pg *Program, run *HarnessRun, engines []*Engine, seed int64, deadli
 				mu.Lock()
 				work = append(work, e.pending...)
 				active--
-				if (run.MaxPaths > 0 && run.NPaths >= run.MaxPaths) || time.Now().After(deadline) {
+				if p.Status == "deadline" {
+					run.Truncated = true
+				}
+				if (run.MaxPaths > 0 && run.NPaths >= run.MaxPaths) || time.Now().After(deadline) || (run.NPaths%512 == 0 && memoryHigh()) {
 					if len(work) > 0 || active > 0 {
 						run.Truncated = true
 					}
